@@ -216,14 +216,21 @@ func splitFamily(maxSplits int, budget time.Duration) mc.Family {
 				}
 				cuts = append(cuts, last+k)
 			}
+			checkStart := bytes.HasPrefix(p.Data, []byte("%!"))
 			ref, ok := refs[items[item].p]
 			if !ok {
 				intp := postscript.NewInterpreter()
+				intp.CheckStart = checkStart
 				err := intp.Execute(bytes.NewReader(p.Data))
 				ref = pscmp.Canon(opTable, intp) + fmt.Sprint(" ERR ", err)
 				refs[items[item].p] = ref
 			}
 			intp := postscript.NewInterpreter()
+			intp.CheckStart = checkStart
+			if checkStart && cuts[0] == 0 {
+				// an empty first piece cannot carry the %! header
+				return mc.Pass("n/a:empty-first-piece-with-start-check", false)
+			}
 			var err error
 			prev := 0
 			var pieces []string
@@ -263,10 +270,10 @@ func main() {
 		TrustedBase: []string{"pscmp.Canon / observe.Dump as complete renderings of the result"},
 		Families: func(tier string) []mc.Family {
 			budget := 50 * time.Second
-			dev, splits := 3, 3
+			dev, splits := 2, 3
 			if tier == "thorough" {
 				budget = 12 * time.Minute
-				dev, splits = 4, 4
+				dev, splits = 3, 4
 			}
 			return []mc.Family{deliveryFamily(entries(), dev, budget), splitFamily(splits, budget)}
 		},
